@@ -184,6 +184,7 @@ func C06(c *vlib.Ctx) {
 	c06HTTP(c)
 	c06Wire(c)
 	c06WireProduction(c)
+	c06PolicyFlip(c)
 	// an egress-policy denial raised at a redirect hop is still a policy denial:
 	// dead-lettered policy_denied after one attempt, not retried to max_retries
 	for _, be := range []string{"memory", "sqlite"} {
